@@ -33,6 +33,8 @@ type Prog struct {
 	flowCache map[ast.Node]*Flow
 	errWrap   map[*types.Func]int
 	ren       *renameState
+
+	inlineNotes []string // new helper functions read as part of their callers (inline.go)
 }
 
 // the one package that is allowed to fail to load (cgo header missing in the sandbox)
@@ -108,6 +110,7 @@ func loadProg(repo, tags string, overlay map[string][]byte) (*Prog, []string) {
 	sort.Strings(problems)
 	theProg = p
 	p.applyRenames()
+	p.applyInlining()
 	p.LoadS = time.Since(t0).Seconds()
 	return p, problems
 }
@@ -303,6 +306,10 @@ func (c *Check) finish(verifDir string, findings []Finding, seed int, t0 time.Ti
 	}
 	for _, lp := range loadProblems {
 		c.Fail("load", lp, token.NoPos, lp)
+	}
+	if c.P != nil && len(c.P.inlineNotes) > 0 {
+		n := len(c.P.inlineNotes)
+		c.Except(itoa(n) + " call site(s) of functions the reference tree did not have were read as part of their callers (helper inlining, DESIGN.md §R.10); first: " + c.P.inlineNotes[0])
 	}
 	// anchors that were resolved through the rename index are listed with the exceptions
 	if c.P != nil && c.P.ren != nil {
